@@ -363,6 +363,9 @@ func Eq(a, b *Term) *Term {
 	if a.IsConst() && b.IsConst() {
 		return Bool(a.Val.Cmp(b.Val) == 0)
 	}
+	if a.Sort.K == KBV && kbDistinct(a, b) { // models_c06.go: some bit is known 0 in one and known 1 in the other
+		return tFalse
+	}
 	if a.Sort.K == KBool {
 		if a.IsTrue() {
 			return b
@@ -535,6 +538,9 @@ func bin(op Op, a, b *Term) *Term {
 		if b.IsConst() && op != OpAShr && b.Val.Cmp(big.NewInt(int64(w))) >= 0 {
 			return BV(0, w)
 		}
+	}
+	if r := kbFold(op, a, b); r != nil { // models_c06.go: every bit of the result is known
+		return r
 	}
 	return mk(op, a.Sort, a, b)
 }
